@@ -172,4 +172,30 @@ theorem shift_selected (k : NK) (op : BinOp) (hop : specOp k = some op) (hs : op
     · exact ⟨_, sel_ND_SHR_i64, shr_i64⟩
     · exact ⟨_, sel_ND_SHR_u64, shr_u64⟩
 
+/-! ### composition helpers -/
+
+theorem run_append (a b : List Ins) (s : State) :
+    X86.run (a ++ b) s = (X86.run a s).bind (X86.run b) := by
+  induction a generalizing s with
+  | nil => rfl
+  | cons i is ih =>
+    simp only [List.cons_append, X86.run]
+    cases X86.step i s with
+    | none => rfl
+    | some s' => exact ih s'
+
+theorem promote_mem (t : ITy) : promote t = .i32 ∨ promote t = .u32 ∨ promote t = .i64 ∨ promote t = .u64 := by
+  cases t <;> simp [promote, ITy.rank, ITy.min, ITy.max, ITy.signed, ITy.bits]
+
+theorem promote_promote (t : ITy) : promote (promote t) = promote t := by
+  cases t <;> simp [promote, ITy.rank, ITy.min, ITy.max, ITy.signed, ITy.bits]
+
+theorem convert_convert_promote (t : ITy) (v : Int) : convert (promote t) (convert (promote t) v) = convert (promote t) v := by
+  cases t <;> simp [promote, ITy.rank, ITy.min, ITy.max, ITy.signed, ITy.bits, convert, wrap, Int.bmod_def] <;>
+    (repeat' split) <;> omega
+
+/-- Spec: a unary operator on `t` is the operator on the promoted type applied to the promoted operand -/
+theorem unop_promote (op : UnOp) (hne : op ≠ .lognot) (t : ITy) (v : Int) :
+    unop op t v = unop op (promote t) (convert (promote t) v) := by
+  cases op <;> simp [unop, promote_promote, convert_convert_promote] at *
 end ChibiVerif.C01
